@@ -252,3 +252,286 @@ func runPosUnit(alg string, seed uint64, n int, outDir string) int {
 	fmt.Printf("unit pos-%s: %d cases into %d shards\n", alg, len(cases), nshard)
 	return 0
 }
+
+// ---------- a positioner followed by a router ----------
+
+// what the routes of the result do to C05 (end points) and C06 (shape)
+func routeProblems(route string, a autog.VerifSnap) (c05, c06 string) {
+	for _, ei := range a.GE {
+		e := a.Edges[ei]
+		f, t := a.Nodes[e.From], a.Nodes[e.To]
+		if f.Virtual || t.Virtual || e.From == e.To {
+			continue
+		}
+		u, l := f, t
+		if t.Layer < f.Layer {
+			u, l = t, f
+		}
+		ps := e.Points
+		if len(ps) < 2 {
+			c05 = fmt.Sprintf("edge %s->%s has %d points", f.ID, t.ID, len(ps))
+			continue
+		}
+		if ps[0] != [2]float64{u.X + u.W/2, u.Y + u.H} || ps[len(ps)-1] != [2]float64{l.X + l.W/2, l.Y} {
+			c05 = fmt.Sprintf("edge %s->%s runs from %v to %v, want bottom-centre %v of %s and top-centre %v of %s", f.ID, t.ID, ps[0], ps[len(ps)-1],
+				[2]float64{u.X + u.W/2, u.Y + u.H}, u.ID, [2]float64{l.X + l.W/2, l.Y}, l.ID)
+		}
+		switch route {
+		case "straight":
+			if len(ps) != 2 {
+				c06 = fmt.Sprintf("straight edge %s->%s has %d points", f.ID, t.ID, len(ps))
+			}
+		case "polyline":
+			if len(ps) != l.Layer-u.Layer+1 {
+				c06 = fmt.Sprintf("polyline edge %s->%s spans %d bands and has %d points", f.ID, t.ID, l.Layer-u.Layer, len(ps))
+			}
+			for k := 1; k < len(ps); k++ {
+				if ps[k][1] < ps[k-1][1] {
+					c06 = fmt.Sprintf("polyline edge %s->%s goes upward at %v", f.ID, t.ID, ps[k])
+				}
+			}
+		case "ortho":
+			for k := 1; k < len(ps); k++ {
+				if ps[k][0] != ps[k-1][0] && ps[k][1] != ps[k-1][1] {
+					c06 = fmt.Sprintf("ortho edge %s->%s: segment %v -> %v is neither horizontal nor vertical", f.ID, t.ID, ps[k-1], ps[k])
+				}
+			}
+		}
+	}
+	return
+}
+
+// the edge list as phase 3 leaves it: the pieces of a broken long edge other than the first come after all other
+// edges, chain by chain (mergeLongEdges removes them from the list while it ranges over it, which skips
+// entries when they are interleaved with the others; the pipeline never produces such a list)
+func pipelineEdgeOrder(c *posCase) {
+	var heads, tails [][]string
+	out := map[string][]string{}
+	for _, e := range c.Edges {
+		if c.Virtual[e[0]] {
+			out[e[0]] = e
+		} else {
+			heads = append(heads, e)
+		}
+	}
+	for _, e := range heads {
+		for v := e[1]; c.Virtual[v]; {
+			f := out[v]
+			tails = append(tails, f)
+			v = f[1]
+		}
+	}
+	c.Edges = append(heads, tails...)
+}
+
+type routeCase struct {
+	posCase
+	Route string `json:"route"`
+	C05   string `json:"c05,omitempty"`
+	C06   string `json:"c06,omitempty"`
+}
+
+func runRouteUnit(spec string, seed uint64, n int, outDir string) int {
+	parts := strings.SplitN(spec, "-", 2) // <positioner>-<router>
+	if len(parts) != 2 {
+		return 2
+	}
+	alg, route := parts[0], parts[1]
+	r := NewRng(seed)
+	os.MkdirAll(outDir, 0o755)
+	code := map[string]int{"sink": 1, "valign": 2, "packright": 3, "ns": 4, "bk": 5}[alg]
+	rcode := map[string]int{"straight": 1, "polyline": 2, "ortho": 3}[route]
+	var cases []routeCase
+	var shard strings.Builder
+	nshard, inShard := 0, 0
+	flush := func() {
+		if inShard == 0 {
+			return
+		}
+		src := "From Autog Require Import Check.\nDefinition q (n : Z) (d : positive) : Q := Qmake n d.\nDefinition runits : list (nat * (nat * Z * nat * Q * Q * graph * graph)) := [\n" +
+			shard.String() + "].\nDefinition U := Eval vm_compute in route_failing runits.\nPrint U.\n"
+		os.WriteFile(fmt.Sprintf("%s/unit_%03d.v", outDir, nshard), []byte(src), 0o644)
+		nshard++
+		inShard = 0
+		shard.Reset()
+	}
+	for i := 0; i < n; i++ {
+		c := routeCase{posCase: genPosCase(r, alg), Route: route}
+		c.Fn = "route"
+		pipelineEdgeOrder(&c.posCase)
+		var b, a autog.VerifSnap
+		func() {
+			defer func() {
+				if rec := recover(); rec != nil {
+					c.Panic = fmt.Sprint(rec)
+				}
+			}()
+			b, a = autog.VerifRoute(alg, route, graph.EdgeSlice(c.Edges), c.Layers, c.Sizes, c.Virtual, c.NS, c.LS, c.BK)
+		}()
+		if c.Panic == "" {
+			c.Overlap = posOverlap(c.posCase, a)
+			c.C05, c.C06 = routeProblems(route, a)
+			if inShard > 0 {
+				shard.WriteString(";\n")
+			}
+			fmt.Fprintf(&shard, " (%d%%nat, (%d%%nat, %s, %d%%nat, %s, %s, %s, %s))", i, code, zlit(c.BK), rcode, qlit(c.NS), qlit(c.LS), graphLit(b), graphLit(a))
+			inShard++
+			if inShard >= 25 {
+				flush()
+			}
+		}
+		cases = append(cases, c)
+	}
+	flush()
+	writeJSON(outDir+"/units.json", cases)
+	fmt.Printf("unit route-%s: %d cases into %d shards\n", spec, len(cases), nshard)
+	return 0
+}
+
+// ---------- the ordering phase ----------
+
+type orderCase struct {
+	Fn       string         `json:"fn"`
+	Edges    [][]string     `json:"edges"`
+	Layers   map[string]int `json:"layers"`
+	Reported []int          `json:"reported"`
+	Counted  int            `json:"counted"` // crossings of the installed order, counted naively
+	Panic    string         `json:"panic,omitempty"`
+}
+
+func genOrderCase(r *Rng) orderCase {
+	c := orderCase{Fn: "order", Layers: map[string]int{}}
+	nl := 2 + r.Intn(5)
+	maxw := 2 + r.Intn(5)
+	if r.Bool(25) {
+		nl = 8 + r.Intn(12)
+		maxw = 2 + r.Intn(2)
+	}
+	widths := make([]int, nl)
+	for i := range widths {
+		widths[i] = 1 + r.Intn(maxw)
+	}
+	name := func(l, i int) string { return fmt.Sprintf("n%d_%d", l, i) }
+	seen := map[[2]string]bool{}
+	indeg := map[string]int{}
+	var es [][]string
+	add := func(a, b string) {
+		if seen[[2]string{a, b}] {
+			return
+		}
+		seen[[2]string{a, b}] = true
+		es = append(es, []string{a, b})
+		indeg[b]++
+	}
+	for l := 0; l+1 < nl; l++ {
+		for i := 0; i < widths[l]; i++ {
+			add(name(l, i), name(l+1, r.Intn(widths[l+1])))
+		}
+		for j := 0; j < widths[l+1]; j++ {
+			if indeg[name(l+1, j)] == 0 {
+				add(name(l, r.Intn(widths[l])), name(l+1, j))
+			}
+		}
+		for k := r.Intn(1 + widths[l]); k > 0; k-- {
+			add(name(l, r.Intn(widths[l])), name(l+1, r.Intn(widths[l+1])))
+		}
+	}
+	if r.Bool(40) { // long edges too: the phase breaks them itself
+		for k := 1 + r.Intn(3); k > 0 && nl > 2; k-- {
+			a := r.Intn(nl - 2)
+			b := a + 2 + r.Intn(nl-a-2)
+			add(name(a, r.Intn(widths[a])), name(b, r.Intn(widths[b])))
+		}
+	}
+	for _, j := range r.Perm(len(es)) {
+		c.Edges = append(c.Edges, es[j])
+	}
+	for l := 0; l < nl; l++ {
+		for i := 0; i < widths[l]; i++ {
+			c.Layers[name(l, i)] = l
+		}
+	}
+	return c
+}
+
+func runOrderUnit(seed uint64, n int, outDir string) int {
+	r := NewRng(seed)
+	os.MkdirAll(outDir, 0o755)
+	var cases []orderCase
+	var shard strings.Builder
+	nshard, inShard := 0, 0
+	flush := func() {
+		if inShard == 0 {
+			return
+		}
+		src := "From Autog Require Import Check.\nDefinition q (n : Z) (d : positive) : Q := Qmake n d.\nDefinition ounits : list (nat * (graph * graph * list Z)) := [\n" +
+			shard.String() + "].\nDefinition U := Eval vm_compute in order_failing ounits.\nPrint U.\n"
+		os.WriteFile(fmt.Sprintf("%s/unit_%03d.v", outDir, nshard), []byte(src), 0o644)
+		nshard++
+		inShard = 0
+		shard.Reset()
+	}
+	for i := 0; i < n; i++ {
+		c := genOrderCase(r)
+		var b, a autog.VerifSnap
+		func() {
+			defer func() {
+				if rec := recover(); rec != nil {
+					c.Panic = fmt.Sprint(rec)
+				}
+			}()
+			b, a, c.Reported = autog.VerifOrder(graph.EdgeSlice(c.Edges), c.Layers)
+		}()
+		if c.Panic == "" {
+			c.Counted = naiveCrossingsIn(a)
+			var rs []string
+			for _, x := range c.Reported {
+				rs = append(rs, zlit(x))
+			}
+			if inShard > 0 {
+				shard.WriteString(";\n")
+			}
+			fmt.Fprintf(&shard, " (%d%%nat, (%s, %s, [%s]))", i, graphLit(b), graphLit(a), strings.Join(rs, ";"))
+			inShard++
+			if inShard >= 6 {
+				flush()
+			}
+		}
+		cases = append(cases, c)
+	}
+	flush()
+	writeJSON(outDir+"/units.json", cases)
+	fmt.Printf("unit order: %d cases into %d shards\n", len(cases), nshard)
+	return 0
+}
+
+// crossings between adjacent bands among the edges of the graph's edge list (after long edges were broken)
+func naiveCrossingsIn(st autog.VerifSnap) int {
+	type pp struct{ l, u, v int }
+	seen := map[pp]bool{}
+	var ps []pp
+	for _, ei := range st.GE {
+		e := st.Edges[ei]
+		f, t := st.Nodes[e.From], st.Nodes[e.To]
+		if f.Layer > t.Layer {
+			f, t = t, f
+		}
+		if t.Layer != f.Layer+1 {
+			continue
+		}
+		p := pp{f.Layer, f.LayerPos, t.LayerPos}
+		if !seen[p] {
+			seen[p] = true
+			ps = append(ps, p)
+		}
+	}
+	n := 0
+	for a := 0; a < len(ps); a++ {
+		for b := a + 1; b < len(ps); b++ {
+			if ps[a].l == ps[b].l && (ps[a].u-ps[b].u)*(ps[a].v-ps[b].v) < 0 {
+				n++
+			}
+		}
+	}
+	return n
+}
